@@ -279,4 +279,132 @@ Section StreamMain.
     intros H -> tk more Ht rest e sh o fuel Hf Hne. rewrite (spec_v_eq decode pf F) in *.
     apply (sde_wrappers tk (more ++ rest, e) (rest, e) (spec_core v) (cv v)); auto.
   Qed.
+
+  Lemma rhead v : core_value v = true ->
+    exists tk more, rtoks_value v = tk :: more /\ (tk = ROpen \/ exists k s, tk = scalar_rtok k s).
+  Proof.
+    destruct v as [k s | fs tl | items | |]; try discriminate; intros _; cbn [rtoks_value]; eexists _, _; split; try reflexivity.
+    - right. now exists k, s.
+    - now left.
+    - now left.
+  Qed.
+
+  Lemma ret_bind2 {A B} r (x : outcome A) (g : A -> outcome B) :
+    (do ar <- ret r x; let '(a, r') := ar in do b <- g a; Ok (b, r')) = ret r (do a <- x; g a).
+  Proof. destruct x; reflexivity. Qed.
+
+  Lemma scase_scalar k s : SPv (VScalar k s).
+  Proof.
+    intros _. apply (swrap_core _ 1); [|reflexivity].
+    intros tk more Ht rest e c op fuel Hw Hf Hne. cbn [rtoks_value] in Ht. injection Ht as <- <-.
+    destruct fuel as [|f]; [lia|]. cbn [app].
+    assert (Hs : spec_scalar c s <> Err EC_UNFIT).
+    { unfold TextDeTapeProofs.spec_core in Hne. destruct c; try exact Hne; discriminate. }
+    rewrite (sde_scalar k s c op (rest, e) f Hw Hs). unfold TextDeTapeProofs.spec_core. now destruct c.
+  Qed.
+
+  Lemma sde_ign_open f op body rest e :
+    l_skip_depth (body ++ RClose :: rest) 0 = Some rest ->
+    sde (S f) ShIgn ROpen op (body ++ RClose :: rest, e) = ret (rest, e) (Ok DIgn).
+  Proof.
+    intros H. rewrite sde_skip by reflexivity. unfold l_skip. cbn [fst snd]. rewrite H. reflexivity.
+  Qed.
+
+  Lemma scase_object fs tl : SPfs fs -> SPvs tl -> SPv (VObject fs tl).
+  Proof.
+    intros Hfs _ Hc. destruct tl; [|discriminate]. cbn [core_value] in Hc.
+    apply (swrap_core _ (cv (VObject fs VNil))); [|reflexivity].
+    intros tk more Ht rest e c op fuel Hw Hf Hne.
+    cbn [rtoks_value rtoks_values app] in Ht. injection Ht as <- <-.
+    destruct fuel as [|f]; [cbn [cv] in Hf; lia|].
+    rewrite <- app_assoc. cbn [app].
+    assert (Hskip : l_skip_depth (rtoks_fields fs ++ RClose :: rest) 0 = Some rest).
+    { rewrite (proj1 (proj2 (proj2 skip_bal)) fs Hc). reflexivity. }
+    assert (Hend : end_ok false (RClose :: rest) e (rest, e)) by (left; now exists rest).
+    unfold TextDeTapeProofs.spec_core in *.
+    destruct c; try discriminate Hw; try (now destruct Hne); try (now apply sde_ign_open).
+    - cbn [wmode_core] in *. rewrite (sde_map f _ op _ (WMap c)); [|now left|reflexivity].
+      rewrite (Hfs Hc false _ e _ Hend (WMap c) (acc0 (WMap c)) f eq_refl).
+      + apply ret_bind2.
+      + cbn [cv shape_size wm_size] in *. lia.
+      + intros E. rewrite E in Hne. now apply Hne.
+    - cbn [wmode_core] in *. rewrite (sde_map f _ op _ (WStruct token fields)); [|now right|reflexivity].
+      rewrite (Hfs Hc false _ e _ Hend (WStruct token fields) (acc0 (WStruct token fields)) f eq_refl).
+      + apply ret_bind2.
+      + cbn [cv wm_size] in *. lia.
+      + intros E. rewrite E in Hne. now apply Hne.
+  Qed.
+
+  Lemma scase_array items : SPvs items -> SPv (VArray items).
+  Proof.
+    intros Hvs Hc. cbn [core_value] in Hc.
+    apply (swrap_core _ (cv (VArray items))); [|reflexivity].
+    intros tk more Ht rest e c op fuel Hw Hf Hne.
+    cbn [rtoks_value] in Ht. injection Ht as <- <-.
+    destruct fuel as [|f]; [cbn [cv] in Hf; lia|].
+    rewrite <- app_assoc. cbn [app].
+    assert (Hskip : l_skip_depth (rtoks_values items ++ RClose :: rest) 0 = Some rest).
+    { rewrite (proj2 (proj2 (proj2 skip_bal)) items Hc). reflexivity. }
+    destruct (Hvs Hc rest e) as [Hall Htup].
+    unfold TextDeTapeProofs.spec_core in *.
+    destruct c; try discriminate Hw; try (now destruct Hne); try (now apply sde_ign_open).
+    - rewrite sde_seq, Hall; [apply ret_bind | cbn [cv shape_size] in *; lia | now apply omap_unfit in Hne].
+    - rewrite sde_tup, Htup; [| cbn [cv] in *; lia | now apply omap_unfit in Hne].
+      destruct (spec_tuple items ss); reflexivity.
+  Qed.
+
+  Lemma scase_fnil : SPfs FNil.
+  Proof.
+    intros _ root tail e r' Hend m a fuel Hm Hf Hne. cbn [rtoks_fields app].
+    destruct fuel as [|f]; [cbn [cfs] in Hf; lia|].
+    rewrite swalk_eq. destruct Hend as [(rest & -> & ->) | (-> & -> & -> & ->)]; reflexivity.
+  Qed.
+
+  Lemma scase_fcons f fs : SPf f -> SPfs fs -> SPfs (FCons f fs).
+  Proof.
+    intros Hf Hfs Hc root tail e r' Hend m a fuel Hm Hfu Hne.
+    cbn [core_fields] in Hc. apply andb_prop in Hc as [Hcf Hcfs].
+    destruct f as [k key op v| |]; try discriminate. cbn [core_field] in Hcf. cbn [SPf] in Hf.
+    specialize (Hf Hcf).
+    destruct fuel as [|fu]; [cbn [cfs] in Hfu; lia|].
+    cbn [cfs cf] in Hfu.
+    destruct (rhead v Hcf) as (tk & more & Ev & Htk).
+    cbn [rtoks_fields rtoks_field]. rewrite Ev. rewrite <- app_assoc. rewrite (spec_fields_cons decode pf F) in *.
+    set (rec2 := fun sh' (_ _ : unit) => omap (fun d => (d, tt)) (spec_v v sh' (Some (op_or_equal op)))) in *.
+    set (s1' := (rtoks_fields fs ++ tail, e)).
+    set (r1 := ((match op with Some o => [ROp o] | None => [] end ++ tk :: more) ++ rtoks_fields fs ++ tail, e)).
+    assert (Hnext : l_next ((scalar_rtok k key :: match op with Some o => [ROp o] | None => [] end ++ tk :: more) ++ rtoks_fields fs ++ tail, e)
+                    = Ok (Some (scalar_rtok k key), r1)) by reflexivity.
+    rewrite swalk_eq, Hnext. cbn [obind].
+    assert (Hent : entry (srec fu) srec_op m a (cow_bytes (decode key)) (is_ok (to_u64 key)) tt r1
+                 = (do r <- entry rec2 (fun _ _ => Err EC_UNFIT) m a (cow_bytes (decode key)) (is_ok (to_u64 key)) tt tt;
+                    Ok (fst r, s1'))).
+    { apply entry_ext_s; auto.
+      - intros sh' Hs Hn. unfold rec2 in *. apply omap_unfit in Hn.
+        assert (Hfuel : cv v + shape_size sh' <= fu).
+        { pose proof (wm_size_pos m). destruct Hs as [-> | Hs]; cbn [shape_size]; lia. }
+        pose proof (Hf tk more Ev (rtoks_fields fs ++ tail) e sh' (Some (op_or_equal op)) fu Hfuel Hn) as Hd.
+        cbn [op_or_equal] in Hd.
+        unfold srec, svalue, r1.
+        destruct op as [o|]; cbn [app op_or_equal] in *.
+        + change (l_read (ROp o :: tk :: more ++ rtoks_fields fs ++ tail, e))
+            with (Ok (ROp o, (tk :: more ++ rtoks_fields fs ++ tail, e)) : outcome (TextReader.rtok * ltoks)).
+          cbn [obind]. rewrite rread_cons. cbn [obind]. rewrite Hd.
+          unfold ret. destruct (spec_v v sh' (Some o)); reflexivity.
+        + change (l_read (tk :: more ++ rtoks_fields fs ++ tail, e))
+            with (Ok (tk, (more ++ rtoks_fields fs ++ tail, e)) : outcome (TextReader.rtok * ltoks)).
+          cbn [obind].
+          assert (Hm2 : forall (A : Type) (x : operator -> A) (y : A), match tk with ROp o => x o | _ => y end = y).
+          { intros. destruct Htk as [-> | (k' & s' & ->)]; [reflexivity | now destruct k']. }
+          rewrite Hm2, Hd. unfold ret. destruct (spec_v v sh' (Some Equal)); reflexivity.
+      - intros E. rewrite E in Hne. now apply Hne. }
+    assert (Hk : forall (A : Type) (x y : A) (z : TextReader.rtok -> A),
+               match scalar_rtok k key with RClose => x | ROpen => y | tk0 => z tk0 end = z (scalar_rtok k key))
+      by (intros; now destruct k).
+    assert (Hki : TextDeStream.key_info decode (scalar_rtok k key) = (cow_bytes (decode key), is_ok (to_u64 key)))
+      by now destruct k.
+    destruct k; cbn [scalar_rtok] in *; rewrite Hki; rewrite Hent;
+      (destruct (entry rec2 _ m a _ _ tt tt) as [r| | | |] eqn:Er; cbn [obind] in *; try reflexivity;
+       apply Hfs; auto; lia).
+  Qed.
 End StreamMain.
